@@ -571,6 +571,18 @@ func runC08(c *Ctx) {
 							}
 						}
 					}
+					if !flushed {
+						// nothing is pending on this path: there is no flush whose outcome has to be awaited
+						for _, l := range guardsOf(in.Block()) {
+							if op, x, y, ok := l.cmp(); ok && op == token.EQL && isConstInt(y, 0) {
+								if lc, ok := stripConv(x).(*ssa.Call); ok {
+									if b, ok := lc.Call.Value.(*ssa.Builtin); ok && b.Name() == "len" && loadOfField(lc.Call.Args[0], w.pendingFrames) {
+										flushed = true
+									}
+								}
+							}
+						}
+					}
 					c.check(flushed, fn, "flush before read", in.Pos(), "pending control frames are flushed before the next read", "the read is started without flushing pending control frames first: a Pong or Close reply waits behind the read")
 					// canRead on every path to the read
 					paths, overflow := enumPaths(fn)
@@ -594,7 +606,24 @@ func runC08(c *Ctx) {
 							if _, pos, ok := callLit(l.Lit, w.canRead); ok && pos {
 								okc = true
 							}
+							// `gate(...) == nil` where the helper `gate` yields nil only on paths that observed canRead()
+							if x, eq, ok := l.nilTest(); ok && eq {
+								if call, ok := resolveCell(path.eval(x, l.At)).(*ssa.Call); ok {
+									if h := call.Call.StaticCallee(); isHelperOf(fn, h) && nilResultImplies(h, func(hp *Path) bool {
+										for _, hl := range hp.Lits {
+											if _, pos, ok := callLit(hl.Lit, w.canRead); ok && pos {
+												return true
+											}
+										}
+										return false
+									}) {
+										okc = true
+									}
+								}
+							}
 						}
+						// an empty pending queue needs no flush
+						_ = okc
 						if !okc {
 							gated = false
 						}
